@@ -30,7 +30,7 @@ def arrived (es : List TEvent) : List Msg := es.filterMap (fun e => e.ev.msg?)
 
 def acceptedOf (td : Nat × Delivery) : Option (Nat × Nat) :=
   match td.2.msg? with
-  | some m => m.obs.map (fun v => (v, td.1))
+  | some m => m.notif.map (fun v => (v, td.1))
   | none => none
 
 /-- `(Observe value, arrival time)` of the notifications handed to the application, in order -/
@@ -56,11 +56,11 @@ theorem errbacks_append (a b : List Delivery) :
     accepted ((t, .responseExc k) :: l) = accepted l := by
   simp [accepted, List.filterMap_cons, acceptedOf, Delivery.msg?]
 theorem accepted_cons_response (t : Nat) (m : Msg) (l : List (Nat × Delivery)) :
-    accepted ((t, .response m) :: l) = (m.obs.map (fun v => (v, t))).toList ++ accepted l := by
-  cases h : m.obs <;> simp [accepted, acceptedOf, Delivery.msg?, h]
+    accepted ((t, .response m) :: l) = (m.notif.map (fun v => (v, t))).toList ++ accepted l := by
+  cases h : m.notif <;> simp [accepted, acceptedOf, Delivery.msg?, h]
 theorem accepted_cons_callback (t : Nat) (m : Msg) (l : List (Nat × Delivery)) :
-    accepted ((t, .callback m) :: l) = (m.obs.map (fun v => (v, t))).toList ++ accepted l := by
-  cases h : m.obs <;> simp [accepted, acceptedOf, Delivery.msg?, h]
+    accepted ((t, .callback m) :: l) = (m.notif.map (fun v => (v, t))).toList ++ accepted l := by
+  cases h : m.notif <;> simp [accepted, acceptedOf, Delivery.msg?, h]
 
 @[simp] theorem handedOver_nil : handedOver [] = [] := rfl
 @[simp] theorem handedOver_cons_response (m : Msg) (l : List Delivery) :
@@ -128,14 +128,25 @@ theorem deliveries_append (cfg : Cfg) (s : ObsState) (es es' : List TEvent) :
 
 /-- what one notification does while an observation is established -/
 theorem step_notification (cfg : Cfg) (v1 t1 t : Nat) (m : Msg) (v2 : Nat) (last : Bool)
-    (h : m.obs = some v2) :
+    (h : m.notif = some v2) :
     step cfg (.observing v1 t1) ⟨t, .message m last⟩ =
-      (if last then .ended else if fresher cfg.reset v1 t1 v2 t then .observing v2 t
+      (if last then .ended else if fresher cfg.reset v1 t1 v2 t then
+          (if m.cancels then .appCancelled else .observing v2 t)
         else .observing v1 t1,
        (if fresher cfg.reset v1 t1 v2 t then [.callback m] else []) ++
-       (if last then [.errback .observationCancelled] else [])) := by
+       (if last then
+          (if fresher cfg.reset v1 t1 v2 t && m.cancels then [] else [.errback .observationCancelled])
+        else [])) := by
   simp only [step, stepObserving, h]
-  cases last <;> simp
+  cases last <;> cases fresher cfg.reset v1 t1 v2 t <;> cases m.cancels <;> simp
+
+/-- what a response that is not a notification (no Observe option, or not a 2.xx code) does while
+an observation is established -/
+theorem step_final (cfg : Cfg) (v1 t1 t : Nat) (m : Msg) (last : Bool) (h : m.notif = none) :
+    step cfg (.observing v1 t1) ⟨t, .message m last⟩ =
+      (.ended, .callback m :: (if m.cancels then [] else [.errback .observationCancelled]) ++
+                 (if last then [] else [.stopInterest])) := by
+  simp only [step, stepObserving, h]
 
 -- states in which nothing is handed over any more ----------------------------------------------
 
@@ -222,20 +233,23 @@ def Delivery.isSignal : Delivery → Bool
   | _ => false
 
 /-- whatever comes first after `observation.cancel()` before the first response: the runner is
-quiet afterwards, the observation's listeners got nothing, at most the response future completed -/
+quiet afterwards (or still waiting for its first event, if the application merely cancelled once
+more), the observation's listeners got nothing, at most the response future completed -/
 theorem cancelledFirst_step (cfg : Cfg) (e : TEvent) :
-    Quiet (step cfg .cancelledFirst e).1 ∧ (∀ d ∈ (step cfg .cancelledFirst e).2, d.isSignal = false) ∧
+    ((step cfg .cancelledFirst e).1 = .cancelledFirst ∧ (step cfg .cancelledFirst e).2 = [] ∨
+      Quiet (step cfg .cancelledFirst e).1) ∧
+    (∀ d ∈ (step cfg .cancelledFirst e).2, d.isSignal = false) ∧
     (accepted ((step cfg .cancelledFirst e).2.map (fun d => (e.time, d)))).length ≤ 1 := by
   obtain ⟨t, ev⟩ := e
   cases ev with
   | message m last =>
     cases last
-    · cases hv : m.obs <;>
+    · cases hv : m.notif <;>
         simp [step, stepCancelledFirst, hv, Quiet, Delivery.isSignal, accepted_cons_response]
-    · cases hv : m.obs <;>
+    · cases hv : m.notif <;>
         simp [step, stepCancelledFirst, Quiet, Delivery.isSignal, accepted_cons_response, hv]
   | exception k => simp [step, stepCancelledFirst, Quiet, Delivery.isSignal]
-  | obsCancel => simp [step, stepCancelledFirst, Quiet]
+  | obsCancel => simp [step, stepCancelledFirst]
   | respCancel => simp [step, stepCancelledFirst, Quiet, Delivery.isSignal]
 
 /-- the observation was cancelled by the application, or the runner is over -/
@@ -245,7 +259,10 @@ theorem calm_step {cfg : Cfg} {s : ObsState} (h : Calm s) (e : TEvent) :
     Calm (step cfg s e).1 ∧ ∀ d ∈ (step cfg s e).2, d.isSignal = false := by
   rcases h with h | h
   · subst h
-    exact ⟨Or.inr (cancelledFirst_step cfg e).1, (cancelledFirst_step cfg e).2.1⟩
+    refine ⟨?_, (cancelledFirst_step cfg e).2.1⟩
+    rcases (cancelledFirst_step cfg e).1 with h1 | h1
+    · exact Or.inl h1.1
+    · exact Or.inr h1
   · obtain ⟨h1, h2⟩ := quiet_step (cfg := cfg) h e
     exact ⟨Or.inr h1, fun d hd => by rw [h2 d hd]; rfl⟩
 
@@ -265,22 +282,28 @@ theorem calm_run {cfg : Cfg} {s : ObsState} (h : Calm s) (es : List TEvent) :
 
 theorem cancelledFirst_accepted (cfg : Cfg) (es : List TEvent) :
     (accepted (trace cfg .cancelledFirst es)).length ≤ 1 := by
-  cases es with
+  induction es with
   | nil => simp [trace_nil]
-  | cons e es =>
+  | cons e es ih =>
     obtain ⟨h1, _, h3⟩ := cancelledFirst_step cfg e
-    rw [trace_cons, accepted_append, quiet_accepted h1, List.append_nil]
-    exact h3
+    rw [trace_cons, accepted_append]
+    rcases h1 with ⟨hs, hd⟩ | hq
+    · rw [hs, hd]
+      simpa using ih
+    · rw [quiet_accepted hq, List.append_nil]
+      exact h3
 
 theorem cancelledFirst_not_observing (cfg : Cfg) (es : List TEvent) (v t : Nat) :
     finalState cfg .cancelledFirst es ≠ .observing v t := by
-  cases es with
+  induction es with
   | nil => simp [finalState_nil]
-  | cons e es =>
+  | cons e es ih =>
     rw [finalState_cons]
-    intro he
-    have := (quiet_run (cfg := cfg) (cancelledFirst_step cfg e).1 es).1
-    rw [he] at this
-    simp [Quiet] at this
+    rcases (cancelledFirst_step cfg e).1 with ⟨hs, _⟩ | hq
+    · rw [hs]; exact ih
+    · intro he
+      have := (quiet_run (cfg := cfg) hq es).1
+      rw [he] at this
+      simp [Quiet] at this
 
 end Aiocoap.Observe
